@@ -3092,7 +3092,17 @@ impl Zeroconf {
         for answer in msg.answers().iter() {
             let mut new_records = Vec::new();
 
-            let name = answer.get_name();
+            // DNS names are compared without regard to letter case. The probe is looked
+            // up, and everything below is named, by our own spelling of the name.
+            let Some(probing_name) = dns_registry
+                .probing
+                .keys()
+                .find(|k| k.eq_ignore_ascii_case(answer.get_name()))
+                .cloned()
+            else {
+                continue;
+            };
+            let name = probing_name.as_str();
             let Some(probe) = dns_registry.probing.get_mut(name) else {
                 continue;
             };
@@ -3345,7 +3355,14 @@ impl Zeroconf {
             } else {
                 // Simultaneous Probe Tiebreaking (RFC 6762 section 8.2)
                 if qtype == RRType::ANY && msg.num_authorities() > 0 {
-                    if let Some(probe) = dns_registry.probing.get_mut(q_name) {
+                    let probing_name = dns_registry
+                        .probing
+                        .keys()
+                        .find(|k| k.eq_ignore_ascii_case(q_name))
+                        .cloned();
+                    if let Some(probe) =
+                        probing_name.and_then(|k| dns_registry.probing.get_mut(&k))
+                    {
                         probe.tiebreaking(&msg, q_name);
 
                         // If we lost, the probe restarts one second later:
